@@ -1,0 +1,8 @@
+//go:build !verif
+// +build !verif
+
+package zenodb
+
+func verifCount(name string, t *table) {}
+
+func verifPoint(name string) {}
